@@ -294,8 +294,8 @@ func runC12(r *Rng, n int, tier string) {
 			"no-out":     `"kotlin":{"package":"com.example.t"}`,
 			"no-package": `"kotlin":{"out":"kt"}`}},
 		{"python", `"python":{"package":"t","out":"py"}`, map[string]string{
-			"override-both": `"python":{"package":"t","out":"py","overrides":[{"column":"t.id","db_type":"int4","py_type":"x.Y"}]}`,
-			"override-none": `"python":{"package":"t","out":"py","overrides":[{"py_type":"x.Y"}]}`}},
+			"override-both": `"python":{"package":"t","out":"py","overrides":[{"column":"t.id","db_type":"int4","python_type":{"module":"x","name":"Y"}}]}`,
+			"override-none": `"python":{"package":"t","out":"py","overrides":[{"python_type":{"module":"x","name":"Y"}}]}`}},
 	}
 	goodEntry := `{"engine":"postgresql","schema":"s.sql","queries":"q.sql","gen":{"go":{"package":"first","out":"first"}}}`
 	for mask := 1; mask < 8; mask++ {
@@ -358,6 +358,8 @@ func runC12(r *Rng, n int, tier string) {
 		}
 		emit(Case{ID: "conf-" + k, Kind: "badconfig", In: J{"files": files}, Impl: J{"ok": res.OK()}, Oracle: oracle, Tags: []string{"invalid-config"}})
 	}
+	// config.ParseConfig next to the Lean model of v2ParseConfig
+	runCfgVal(r, n*4)
 	// KNOWN FINDING sameOutDir: two packages writing to one directory
 	{
 		files := map[string]string{}
